@@ -28,9 +28,10 @@ def main():
         patches = [p for p in patches if os.path.basename(p).split('-')[0] in props]
     if not patches:
         print('selftest: no mutants for %s' % (props or 'any property'))
-        return 0
     scratch = tempfile.mkdtemp(prefix='verif-selftest-')
     results = []
+    if os.environ.get('VERIF_ONLY_BENIGN'):
+        patches = []
     try:
         work = os.path.join(scratch, 'repo')
         for p in patches:
@@ -57,6 +58,37 @@ def main():
                 results.append((name, 'SURVIVED', 'exit=%d keys=%s' % (r.returncode, keys[:4])))
     finally:
         shutil.rmtree(scratch, ignore_errors=True)
+    # behaviour-preserving variants: the checks of the named properties must stay silent (exit 0)
+    benign = sorted(glob.glob(os.path.join(ROOT, 'selftest', 'benign', '*.patch')))
+    if props:
+        benign = [p for p in benign if set(os.path.basename(p).split('-')[0].split(',')) & set(props)]
+    if benign and not os.environ.get('VERIF_SKIP_BENIGN'):
+        scratch = tempfile.mkdtemp(prefix='verif-benign-')
+        try:
+            work = os.path.join(scratch, 'repo')
+            for p in benign:
+                name = os.path.basename(p)[:-6]
+                pl = [x for x in name.split('-')[0].split(',') if not props or x in props]
+                shutil.rmtree(work, ignore_errors=True)
+                subprocess.run(['rsync', '-a', '--exclude', '/target', '--exclude', '/.git', REPO + '/', work + '/'], check=True)
+                subprocess.run(['git', 'init', '-q'], cwd=work)
+                ap = subprocess.run(['git', 'apply', '--whitespace=nowarn', p], cwd=work, stdout=subprocess.PIPE, stderr=subprocess.STDOUT, text=True)
+                if ap.returncode != 0:
+                    results.append(('benign:' + name, 'PATCH-DOES-NOT-APPLY', ap.stdout.strip()[:200]))
+                    continue
+                for prop in pl:
+                    env = dict(os.environ, VERIF_REPO=work, VERIF_NO_EVIDENCE='1')
+                    r = subprocess.run([os.path.join(ROOT, 'check'), prop, '--tier', 'quick'], env=env, cwd=ROOT,
+                                       stdout=subprocess.PIPE, stderr=subprocess.STDOUT, text=True)
+                    keys = re.findall(r'^(?:VIOLATED|UNPROVEN) (\S+)', r.stdout, re.M)
+                    if r.returncode == 0:
+                        results.append(('benign:%s@%s' % (name, prop), 'KILLED', 'silent (as required)'))
+                    elif r.returncode == 2:
+                        results.append(('benign:%s@%s' % (name, prop), 'BROKEN', r.stdout[-300:]))
+                    else:
+                        results.append(('benign:%s@%s' % (name, prop), 'FALSE-ALARM', str(keys[:3])))
+        finally:
+            shutil.rmtree(scratch, ignore_errors=True)
     bad = [r for r in results if r[1] != 'KILLED']
     for r in results:
         print('selftest: %-40s %s  %s' % r)
